@@ -485,7 +485,7 @@ func (c *clientPrefix) FlushPolicy() int32 {
 // random prefix
 func TryFromID(id PrefixID) (Prefix, error) {
 
-	if len(DefaultPrefixes) == 0 || id < Rand || int(id) > len(DefaultPrefixes) {
+	if len(DefaultPrefixes) == 0 || id < Rand || int(id) >= len(DefaultPrefixes) {
 		return nil, ErrUnknownPrefix
 	}
 
